@@ -159,6 +159,10 @@ impl Data {
                 layers_obj.absorptance = cons.absorptance;
 
                 wallcons.insert(layers_obj.name.clone(), layers_obj);
+            } else {
+                // La construcción se llama como sus capas: la absortividad escrita es la de la construcción
+                layers_obj.absorptance = cons.absorptance;
+                layers.insert(cons.layers.clone(), layers_obj);
             }
         }
 
